@@ -127,6 +127,31 @@ def main(argv=None):
             meta[rid] = {"tool": tool, "argv": " ".join(full), "seed": s, "kind": "cli"}
             for k in range(nruns):
                 jobs.append((rid, k, code, ambient(wd, k, ck.rng), os.path.join(wd, "%s_%d.trace" % (rid, k))))
+    # every formula command line of the TLC-exported LibCall table (CliTable.tla), random or not: the comment
+    # header, the variable names and the clause order must not depend on anything ambient either
+    groups = ck.export("CliExport", "CliExport.cfg")
+    table = {g["name"]: g["items"] for g in groups}
+    with open(os.path.join(wd, "null.dimacs"), "w") as f:
+        f.write("c the null graph\np edge 0 0\n")
+    with open(os.path.join(wd, "p3.dimacs"), "w") as f:
+        f.write("p edge 3 2\ne 1 2\ne 2 3\n")
+    gspec = {g["name"]: [os.path.join(wd, t[len("%file:"):]) if t.startswith("%file:") else t for t in g["spec"]]
+             for g in table["graphs"]}
+    cmds = sorted(table["formula"], key=lambda c: " ".join(c["argv"]))
+    if ck.quick:
+        cmds = ck.rng.sample(cmds, 40)
+    for c in cmds:
+        args = [x for tok in c["argv"] for x in (gspec[tok[1:]] if tok.startswith("@") else [tok])]
+        for tool in ("cnfgen", "pbgen"):
+            n += 1
+            rid = "t%04d" % n
+            s = seeds[n % 3]
+            full = [tool, "--seed", str(s)] + args
+            code = "import c07_child; c07_child.run_tool(%r, %r)" % (TOOLS[tool], full)
+            meta[rid] = {"tool": tool, "argv": " ".join(full), "seed": s, "kind": "cli"}
+            for k in (0, 1 + n % 2):
+                jobs.append((rid, k, code, ambient(wd, k, ck.rng), os.path.join(wd, "%s_%d.trace" % (rid, k))))
+    ck.count("table_command_lines", len(cmds))
     libs = ["RandomKCNF", "RandomKXOR", "RandomKCNF_planted", "RandomKCNF_dense", "RandomKCNF_dense_b", "RandomKXOR_dense", "left_regular", "regular", "m_edges_sparse", "m_edges_dense",
             "bipartite_random", "split_random_edges", "add_random_missing_edges"]
     for name in libs:
